@@ -47,6 +47,11 @@ class Check(BaseCheck):
                 yield corr_fem.case_dict("tri", c["v"] * corr_fem.SCALES[k % len(corr_fem.SCALES)], c["t"], lump=lump, dt="f64", name=c["name"], pres=c.get("pres"))
         for c in gen.tet_stream(self.seed + 1, 12 if self.quick else 100, "small"):
             yield corr_fem.case_dict("tet", c["v"], c["t"], lump=False, dt="f64", name=c["name"])
+        rs = gen.rng_for(self.seed, "c01-sliver")
+        for h in (1e-5, 1e-7):
+            v, t = gen.sliver(rs, h)
+            for rot in range(3):
+                yield corr_fem.case_dict("tri", v, np.roll(t, rot, axis=1), lump=False, dt="f64", name="sliver")
         for c in corr_fem.aniso_meshes(self.seed + 2, 6 if self.quick else 40):
             yield dict(corr_fem.case_dict("tri", c["v"], c["t"], lump=False, name=c["name"]), aniso=c["aniso"], smooth=c["smooth"])
 
@@ -64,6 +69,9 @@ class Check(BaseCheck):
                     if reuse:
                         Solver(m, aniso=an, aniso_smooth=sm)
                         m.smooth_(1)
+                        nn = np.linalg.norm(corr_fem.tri_geom(np.asarray(m.v, float), t)[3], axis=1)
+                        if nn.min() < 1e-9 * nn.max():
+                            continue            # smoothing made a triangle (numerically) degenerate: outside the quantifier
                     a_an = Solver(m, aniso=an, aniso_smooth=sm).stiffness.astype(np.float64)
                     a_0 = Solver(m, aniso=0.0, aniso_smooth=sm).stiffness.astype(np.float64)
                     a_iso = Solver(TriaMesh(np.array(m.v), np.array(m.t))).stiffness.astype(np.float64)
